@@ -816,8 +816,18 @@ class Prover:
         if k == "param" and d < 8:
             r = self.w.param_len_range(self.se.fn, x[1])
             if r is not None:
-                return r
+                return (r[0], min(r[1], ISIZE_MAX)) if self._is_byte_slice(x) else r
+        # no slice of bytes is longer than isize::MAX (language guarantee on allocations)
+        if self._is_byte_slice(x):
+            return (0, ISIZE_MAX)
         return (0, INF)
+
+    def _is_byte_slice(self, x):
+        ty = self.type_of(x)
+        if ty is None:
+            return False
+        t2 = ty.peel_refs()
+        return t2.s in ("[u8]", "str", "std::vec::Vec<u8>", "std::string::String")
 
     def _typed_len(self, x):
         ty = self.type_of(x)
@@ -1203,6 +1213,9 @@ def _arith(op, ra, rb):
 
 def _flip(op):
     return {"Lt": "Gt", "Le": "Ge", "Gt": "Lt", "Ge": "Le", "Eq": "Eq", "Ne": "Ne"}[op]
+
+
+ISIZE_MAX = 2 ** 63 - 1
 
 
 def _refine(r, op, other):
